@@ -85,7 +85,7 @@ fn main() {
     let max_len = ctx.pick(3usize, 6usize);
     let instances = 3usize;
     ctx.set_rule(
-        "cases = (registry entry, fitted instance 0..2 with different data seeds / feature counts / hyper-parameters); registry = 37 entries (28 + single-member MultiTargetModel + one- / two-member MultiClassModel + Platt with prescribed calibrated decision values spanning [-110, 1e4] + MultiClassModel with nearly tied / all-unconfident members + 5 exact-decision-boundary instances: linear C-SVC on point-symmetric integer data with pool rows on the hyperplane, one-class SVM with rho set to a pool row's decision value, logistic regression with the threshold set to a pool row's probability, k-means with pool rows equidistant from two centroids, decision tree with pool rows exactly on split values; exactness is checked at run time and counted as rows_exactly_on_decision_boundary) covering every predictor type of the workspace (k-means, GMM, OLS, isotonic, Tweedie, \
+        "cases = (registry entry, fitted instance 0..2 with different data seeds / feature counts / hyper-parameters); registry = 38 entries (incl. MultiClassModel member lists with REPEATED labels: all 8 + 16 labellings of 3 / 4 members over two labels x all 6 / 24 orders of the probability levels 0.3 / 0.9 / 0.5 / 0.7 = 432 wrappers, each on the 6-row pool as a batch, row by row and in place; 28 + single-member MultiTargetModel + one- / two-member MultiClassModel + Platt with prescribed calibrated decision values spanning [-110, 1e4] + MultiClassModel with nearly tied / all-unconfident members + 5 exact-decision-boundary instances: linear C-SVC on point-symmetric integer data with pool rows on the hyperplane, one-class SVM with rho set to a pool row's decision value, logistic regression with the threshold set to a pool row's probability, k-means with pool rows equidistant from two centroids, decision tree with pool rows exactly on split values; exactness is checked at run time and counted as rows_exactly_on_decision_boundary) covering every predictor type of the workspace (k-means, GMM, OLS, isotonic, Tweedie, \
          elastic net, multi-task elastic net, PLS regression / canonical / CCA, logistic binary / multinomial, SVM C-bool gaussian, C-bool linear / polynomial, probability, regression \
          linear / gaussian, one-class, decision tree, Gaussian NB, multinomial NB, FTRL, PCA, FastICA, MultiTargetModel, MultiClassModel, Platt over a linear scorer and over an SVM); \
          per case: query pool of 6 rows (2 training rows, a duplicate of the first, an off-data midpoint, an extreme row, a third training row) x EVERY ordered selection \
@@ -193,7 +193,7 @@ fn main() {
                    "float_cells_not_bit_identical": rep.float_cells - rep.float_bit_identical, "max_dev_in_tol_units": rep.max_dev_in_tol_units,
                    "label_cells": rep.label_cells, "violations": rep.viols.len(), "single_row_reference_outputs": rep.refs_json, "wall_ms": t0.elapsed().as_millis() as u64}),
         );
-        if c.family.is_none() && rep.batches as usize != sweep::n_selections(c.max_len) {
+        if c.family.is_none() && !rep.counters.contains_key("entry_without_batch_sweep") && rep.batches as usize != sweep::n_selections(c.max_len) {
             ctx.capped(&format!("{}#{}: {} of {} batches run (reference unavailable for some pool row)", c.entry, c.instance, rep.batches, sweep::n_selections(c.max_len)));
         }
         ctx.sample(|| json!({"entry": c.entry, "family": c.family, "instance": c.instance, "max_len": c.max_len, "n": c.n, "float": c.float, "evaluations": rep.evals, "batches": rep.batches}));
